@@ -190,6 +190,7 @@ def make_strategy():
 
 def to_case(v):
     toks, lseed, cseed = v
+    cseed = family.cfg_seed(cseed)
     rng = random.Random(lseed)
     src, r = layout.render(toks, rng, 'C', dict(blank=6, p_cmt=0.1, p_trail=0.1))
     src = inject_blank_lines(src.encode('utf-8'), rng, 0.15)
@@ -199,6 +200,7 @@ def to_case(v):
 def main(ctx):
     quick = ctx.tier == 'quick'
     _EX.update(family.exclusions(ctx))
+    family.set_tier(ctx)
     ctx.rule = ('case = (source with injected blank lines, language, config); judged when uncrustify exits 0; non-trivial = the input has a run '
                 'longer than nl_max, or start/end counts change under a start/end option, or an eat_blanks option is set and the input has blank '
                 'lines; distinct by sha256')
@@ -211,7 +213,7 @@ def main(ctx):
     for rel, lang in files:
         src = corpus.read(rel)
         for i in range(ncfg):
-            r = random.Random(core.subseed(ctx.seed, 'corpus', rel, i))
+            r = random.Random(core.subseed(ctx.useed, 'corpus', rel, i))
             s2 = src if b'\x00' in src[:4096] else inject_blank_lines(src, r, (0.1, 0.3)[i % 2])
             cases.append(family.Case(s2, lang, draw_cfg(r, (0.0, 0.02, 0.05)[i % 3]), {'kind': 'corpus-blank-injected', 'file': rel, 'cfg_index': i}))
     # exhaustive small matrix on one carrier: nl_max x start/end option x min x input edge counts
